@@ -253,7 +253,7 @@ func rgGen(seed int64, n int, args []string, out *json.Encoder) {
 		// A group path may end in "/" with the paths inside it written relative to it ("/s/" + "a", "/s/" + ""), and a
 		// route inside a group may have the empty path: the flat path is the plain concatenation either way. rel says
 		// that the enclosing prefix ends in "/" (so a child must not start with one: "//" would be an empty segment).
-		rel := func() bool { return len(prefix) > 0 && strings.HasSuffix(prefix[len(prefix)-1], "/") }
+		rel := func() bool { return strings.HasSuffix(strings.Join(prefix, ""), "/") }
 		rp := func(abs []string) string {
 			p := abs[rng.Intn(len(abs))]
 			if rel() {
@@ -262,10 +262,10 @@ func rgGen(seed int64, n int, args []string, out *json.Encoder) {
 				}
 				return p[1:]
 			}
-			if len(prefix) > 0 && rng.Intn(10) == 0 {
+			if strings.Join(prefix, "") != "" && rng.Intn(10) == 0 {
 				return ""
 			}
-			if len(prefix) > 0 && rng.Intn(12) == 0 {
+			if strings.Join(prefix, "") != "" && rng.Intn(12) == 0 {
 				return "/" // the group path with a trailing slash (an extra empty segment): "/g" + "/" is "/g/", not "/g"
 			}
 			return p
@@ -274,7 +274,7 @@ func rgGen(seed int64, n int, args []string, out *json.Encoder) {
 			full := func(p string) string { return strings.Join(prefix, "") + p }
 			switch r := rng.Intn(12); {
 			case r < 3 && depth < 4:
-				g := []string{"/g", "/h", "/k", "/s/", "/t/"}[rng.Intn(5)]
+				g := []string{"/g", "/h", "/k", "/s/", "/t/", ""}[rng.Intn(6)] // "": a group that only contributes handlers
 				if rel() {
 					g = []string{"g", "h/", "k", "s/"}[rng.Intn(4)]
 				}
